@@ -47,7 +47,7 @@ ASSUMPTIONS = ['PLY matches rules in the order function-definition line, then st
                'the implementation terminates on every input within the per-case timeout (observed, not proved)']
 
 BAD_TOKENS = [('$', 'lexer'), ('~', 'lexer'), ('@', 'lexer'), ('BOOLEAN', 'lexer'), ('ENUMERATED', 'lexer'), ('NULL', 'lexer'),
-              ('99999999999999999999999', 'lexer'), ('-18446744073709551616', 'lexer'), ('foo-', 'lexer'), ('Bar-', 'lexer'), ('?', 'lexer')]
+              ('99999999999999999999999', 'lexer'), ("'FF'B", 'lexer'), ("'12'b", 'lexer'), ("'0G'h", 'lexer'), ('-18446744073709551616', 'lexer'), ('foo-', 'lexer'), ('Bar-', 'lexer'), ('?', 'lexer')]
 
 
 def cases(ctx):
@@ -86,8 +86,11 @@ def cases(ctx):
             if not legal:
                 yield 'insert-exports', dialect, text[:off] + 'EXPORTS zzA, zzB; ' + text[off:], 'reject'
         # truncation in the middle of tokens / strings
+        end_off = max(off for tok, off, line in pos if tok == 'END')       # where the closing END starts
         for _ in range(per // 3):
-            yield 'truncate-raw', dialect, text[:rng.randint(0, len(text))], None
+            cut = rng.randint(0, len(text))
+            # a text cut anywhere before its closing END is complete (inside a token, a string, a comment, a block) is not a file
+            yield 'truncate-raw', dialect, text[:cut], ('error' if 0 < cut <= end_off and text[:cut].strip() else None)
     alphabet = "abzAZ09-_ \t\n\r\"'{}()[];:,.|=hHbB\\^`$MACROENDXPTSCHOIé"
     for _ in range(400 if ctx.tier == 'quick' else 8000):
         n = rng.randint(0, 40)
